@@ -31,26 +31,66 @@ bool     nondet_bool(void) { return false; }
 #include CONT_API
 #include "clauses.hpp"
 #include "exec.hpp"
+#include "ranges.hpp"
+#define REL_ALPHA alpha_real
+extern "C" void __vf_draw_mode(int) {}
+#include "rel_clauses.hpp"
 int64_t last_now, cfg_ttl = 100, cfg_tick = 5;
 
 // ---- lifting of a K2 counterexample: reach the abstract pre-state alpha(pre) through the public API only ----
 static void at(int64_t t) { g_now_ticks = t; }
+// Slot-arrangement variants: variant v > 0 first inserts v dummy keys (long-lived) and erases them again once the
+// cache is about to fill up / at the end, so that the target entries end up in other slots and free slots are left
+// in other positions than a plain fill produces.  The abstract state reached is the same.
+static int      g_variant;
+static int      g_dummies_in;
+static uint64_t dummy_key(int i) { return 0xD0D0D0D000000000ULL + (uint64_t)i; }
+static void     dummies_begin(C& c)
+{
+    g_dummies_in = 0;
+#if T_CAPPED
+    for (int i = 0; i < g_variant && i + 1 < HCAP; ++i)
+    {
+#if T_TTL == 2 && T_HAS_UPDTTL
+        c.update_ttl(std::chrono::milliseconds{(int64_t)1 << 41});
+#endif
+        x_insert(c, dummy_key(i), 0, 3, (int64_t)1 << 41);
+        ++g_dummies_in;
+    }
+#else
+    (void)c;
+#endif
+}
+static void dummies_end(C& c)
+{
+    for (int i = 0; i < g_dummies_in; ++i) x_erase(c, dummy_key(i));
+    g_dummies_in = 0;
+}
+// called before each target entry is written: make room when the dummies would otherwise cause an eviction
+static void dummies_room(C& c)
+{
+#if T_CAPPED
+    if (g_dummies_in > 0 && c.size() >= HCAP) dummies_end(c);
+#else
+    (void)c;
+#endif
+}
 static bool build_state(C& c, const Abs& t, int64_t last_now)
 {
     (void)last_now;
+    at(0);
+    dummies_begin(c);
 #if T_POLICY == P_LRU && T_TTL == 0
-    for (size_t p = t.n; p-- > 0;) c.insert(t.k[p], t.v[p]);
+    for (size_t p = t.n; p-- > 0;) { dummies_room(c); c.insert(t.k[p], t.v[p]); }
 #elif T_POLICY == P_LRU && T_TTL == 1 /* tlru: per-entry ttl, all written at time 0 */
-    at(0);
-    for (size_t p = t.n; p-- > 0;) c.insert(std::chrono::milliseconds{t.d[p]}, t.k[p], t.v[p]);
+    for (size_t p = t.n; p-- > 0;) { dummies_room(c); c.insert(std::chrono::milliseconds{t.d[p]}, t.k[p], t.v[p]); }
 #elif T_POLICY == P_LRU && T_TTL == 2 /* utlru: the ttl in force is reconfigured before each write */
-    at(0);
-    for (size_t p = t.n; p-- > 0;) { c.update_ttl(std::chrono::milliseconds{t.d[p]}); c.insert(t.k[p], t.v[p]); }
-    c.update_ttl(std::chrono::milliseconds{t.ttl});
+    for (size_t p = t.n; p-- > 0;) { dummies_room(c); c.update_ttl(std::chrono::milliseconds{t.d[p]}); c.insert(t.k[p], t.v[p]); }
 #elif T_POLICY == P_MRU || T_POLICY == P_FIFO || T_POLICY == P_RR
-    for (size_t p = 0; p < t.n; ++p) c.insert(t.k[p], t.v[p]);
+    for (size_t p = 0; p < t.n; ++p) { dummies_room(c); c.insert(t.k[p], t.v[p]); }
 #elif T_POLICY == P_LFU
-    for (size_t p = 0; p < t.n; ++p) c.insert(t.k[p], t.v[p]);
+    for (size_t p = 0; p < t.n; ++p) { dummies_room(c); c.insert(t.k[p], t.v[p]); }
+    dummies_end(c);
     for (size_t p = 0; p < t.n; ++p)
         for (uint64_t u = 1; u < t.cnt[p]; ++u) c.find(t.k[p]);
 #elif T_POLICY == P_LFUDA
@@ -58,10 +98,14 @@ static bool build_state(C& c, const Abs& t, int64_t last_now)
     {
         size_t ord[AMAX]; for (size_t p = 0; p < t.n; ++p) ord[p] = p;
         for (size_t i = 0; i < t.n; ++i) for (size_t j = i + 1; j < t.n; ++j) if (t.age[ord[j]] < t.age[ord[i]]) { size_t x = ord[i]; ord[i] = ord[j]; ord[j] = x; }
-        for (size_t i = 0; i < t.n; ++i) { size_t p = ord[i]; at(t.age[p]); c.insert(t.k[p], t.v[p]); for (uint64_t u = 1; u < t.cnt[p]; ++u) c.find(t.k[p]); }
+        for (size_t i = 0; i < t.n; ++i) { size_t p = ord[i]; dummies_room(c); at(t.age[p]); c.insert(t.k[p], t.v[p]); for (uint64_t u = 1; u < t.cnt[p]; ++u) c.find(t.k[p]); }
     }
 #elif T_POLICY == P_NONE /* ut_map / ut_set: uniform ttl fixed at construction; written at deadline - ttl, in ttl order */
     for (size_t p = 0; p < t.n; ++p) { at(t.d[p] - t.ttl); x_insert(c, t.k[p], t.v[p], 3, 0); }
+#endif
+    dummies_end(c);
+#if T_POLICY == P_LRU && T_TTL == 2
+    c.update_ttl(std::chrono::milliseconds{t.ttl});
 #endif
     Abs got;
     alpha_real(c, got);
@@ -69,6 +113,94 @@ static bool build_state(C& c, const Abs& t, int64_t last_now)
     for (size_t p = 0; p < AMAX && p < t.n; ++p)
         if (got.k[p] != t.k[p] || got.v[p] != t.v[p] || got.d[p] != t.d[p] || got.cnt[p] != t.cnt[p] || got.age[p] != t.age[p]) same = false;
     return same;
+}
+struct Call { unsigned long long op, k, v, al, pk; long long ttl, now; };
+static unsigned long long g_draws[16];
+static size_t             g_next_draw;
+#if T_POLICY == P_RR
+static void force_draw(C& c, const Call& cl)
+{
+    const bool will_draw = (cl.op == OP_INSERT) && c.size() == HCAP && (cl.al & 1) && !c.find(cl.k).has_value();
+    unsigned long long draw = g_draws[g_next_draw & 15];
+    if (will_draw) ++g_next_draw;
+    size_t n = c.size();
+    if (n > 0)
+        for (unsigned s = 1; s < 100000; ++s) { std::mt19937 g(s); std::uniform_int_distribution<size_t> d{0, n - 1}; if (d(g) == (size_t)(draw % n)) { c.m_mt.seed(s); break; } }
+}
+#endif
+// one attempt with one slot-arrangement variant; returns -1 if the abstract state was not reached
+static int state_attempt(const Abs& t, long long last_now_, long long ttl_, long long tick_, const Call* calls, int ncalls, int kind,
+                         int rmethod, int rn)
+{
+    cfg_ttl = ttl_; cfg_tick = tick_ > 0 ? tick_ : 5;
+    g_now_ticks = 0; g_next_draw = 0; g_fail = 0;
+    DECL_C(c);
+    if (!build_state(c, t, last_now_)) return -1;
+    if (kind == 0) // plain: the calls in order, the clauses of the last one
+    {
+        Abs pre, post;
+        alpha_real(c, pre);
+        for (int ci = 0; ci < ncalls; ++ci)
+        {
+            const Call& cl = calls[ci];
+            g_step = ci;
+            Ev ev; ev.op = (int)cl.op; ev.k = cl.k; ev.v = cl.v; ev.a = (uint8_t)cl.al; ev.pk = cl.pk != 0; ev.ttl = cl.ttl; ev.now = cl.now;
+#if T_POLICY == P_RR
+            force_draw(c, cl);
+#endif
+            Res r;
+            exec_call(c, ev, r);
+            if (g_prop != 8) alpha_real(c, post);
+            printf("state-mode[v%d] call %d op=%d k=%llu v=%llu a=%llu pk=%llu ttl=%lld now=%lld -> ok=%d val=%llu cnt=%llu n=%zu size=%zu\n", g_variant, ci,
+                   (int)cl.op, cl.k, cl.v, cl.al, cl.pk, cl.ttl, cl.now, (int)r.ok, (unsigned long long)r.val, (unsigned long long)r.cnt, r.n, r.size);
+            if (ci == ncalls - 1 && g_prop != 8) check_clauses(pre, post, ev, r);
+            pre = post;
+        }
+    }
+    else
+    {
+        // twin container in the same state (range == singles) or freshly constructed (clear twin)
+        g_now_ticks = 0;
+        DECL_C(c2);
+        Ev e[RMAX > 4 ? RMAX : 4];
+        for (int ci = 0; ci < ncalls && ci < 4; ++ci)
+        {
+            e[ci].op = (int)calls[ci].op; e[ci].k = calls[ci].k; e[ci].v = calls[ci].v; e[ci].a = (uint8_t)calls[ci].al; e[ci].pk = calls[ci].pk != 0;
+            e[ci].ttl = calls[ci].ttl; e[ci].now = calls[ci].now;
+        }
+        if (kind == 1)
+        {
+            int v = g_variant; // the twin is built the same way
+            if (!build_state(c2, t, last_now_)) return -1;
+            g_variant = v;
+#if T_POLICY == P_RR
+            c.m_mt.seed(4242); c2.m_mt.seed(4242); // both copies see the same draws
+#endif
+            __vf_set_now(calls[0].now);
+            range_vs_singles(c, c2, rmethod, e, (size_t)rn, (uint8_t)calls[0].al, calls[0].pk != 0);
+            printf("state-mode[v%d] range method %d over %d elements vs singles: clause failures %d\n", g_variant, rmethod, rn, g_fail);
+        }
+        else
+        {
+#if T_HAS_CLEAR
+            __vf_set_now(calls[0].now);
+            c.clear();
+#if T_TTL == 2 && T_HAS_UPDTTL
+            c2.update_ttl(std::chrono::milliseconds{t.ttl});
+#endif
+#if T_POLICY == P_RR
+            c.m_mt.seed(4242); c2.m_mt.seed(4242);
+#endif
+            for (int ci = 0; ci < ncalls && ci < 4; ++ci)
+            {
+                g_step = ci;
+                twin_step(c, c2, e[ci]);
+            }
+            printf("state-mode[v%d] clear() then %d calls on the cleared container and on a fresh twin: clause failures %d\n", g_variant, ncalls, g_fail);
+#endif
+        }
+    }
+    return g_fail;
 }
 static int run_state_mode(FILE* f)
 {
@@ -82,47 +214,37 @@ static int run_state_mode(FILE* f)
         if (fscanf(f, " e %llu %llu %lld %llu %lld", &k, &v, &d, &cnt, &age) != 5) return 2;
         t.k[p] = k; t.v[p] = v; t.d[p] = d; t.cnt[p] = cnt; t.age[p] = age;
     }
-    struct Call { unsigned long long op, k, v, al, pk; long long ttl, now; } calls[4];
-    int ncalls = 0;
+    // optional mode line: "kind range <rmethod> <n>" or "kind twin"
+    int kind = 0, rmethod = 0, rn = 0;
+    {
+        long pos = ftell(f); char w[16], w2[16];
+        if (fscanf(f, " %15s %15s", w, w2) == 2 && !strcmp(w, "kind"))
+        {
+            if (!strcmp(w2, "range")) { kind = 1; if (fscanf(f, " %d %d", &rmethod, &rn) != 2) return 2; }
+            else kind = 2;
+        }
+        else fseek(f, pos, SEEK_SET);
+    }
+    Call calls[4];
+    int  ncalls = 0;
     while (ncalls < 4 && fscanf(f, " call %llu %llu %llu %llu %llu %lld %lld", &calls[ncalls].op, &calls[ncalls].k, &calls[ncalls].v,
                                 &calls[ncalls].al, &calls[ncalls].pk, &calls[ncalls].ttl, &calls[ncalls].now) == 7)
         ++ncalls;
     if (ncalls == 0) return 2;
-    unsigned long long draws[16] = {0};
-    { char w[16]; if (fscanf(f, " %15s", w) == 1 && !strcmp(w, "draws")) { for (int i = 0; i < 16; ++i) if (fscanf(f, " %llu", &draws[i]) != 1) break; } }
-    size_t next_draw = 0; (void)next_draw;
-    cfg_ttl = ttl_; cfg_tick = tick_ > 0 ? tick_ : 5;
-    g_now_ticks = 0;
-    DECL_C(c);
-    if (!build_state(c, t, last_now_)) { printf("BUILD-MISMATCH: the abstract pre-state was not reached by the state builder\n"); return 3; }
-    Abs pre, post;
-    alpha_real(c, pre);
-    for (int ci = 0; ci < ncalls; ++ci)
+    { char w[16]; if (fscanf(f, " %15s", w) == 1 && !strcmp(w, "draws")) { for (int i = 0; i < 16; ++i) if (fscanf(f, " %llu", &g_draws[i]) != 1) break; } }
+    bool reached = false;
+    int  worst = 0;
+    for (g_variant = 0; g_variant <= 2; ++g_variant)
     {
-        Call& cl = calls[ci];
-        g_step = ci;
-        Ev ev; ev.op = (int)cl.op; ev.k = cl.k; ev.v = cl.v; ev.a = (uint8_t)cl.al; ev.pk = cl.pk != 0; ev.ttl = cl.ttl; ev.now = cl.now;
-#if T_POLICY == P_RR
-        {
-            const bool will_draw = (cl.op == OP_INSERT) && c.size() == HCAP && (cl.al & 1) && !c.find(cl.k).has_value();
-            unsigned long long draw = draws[next_draw & 15];
-            if (will_draw) ++next_draw;
-            size_t n = c.size();
-            if (n > 0)
-                for (unsigned s = 1; s < 100000; ++s) { std::mt19937 g(s); std::uniform_int_distribution<size_t> d{0, n - 1}; if (d(g) == (size_t)(draw % n)) { c.m_mt.seed(s); break; } }
-        }
-#endif
-        Res r;
-        exec_call(c, ev, r);
-        alpha_real(c, post);
-        printf("state-mode call %d op=%d k=%llu v=%llu a=%llu pk=%llu ttl=%lld now=%lld -> ok=%d val=%llu cnt=%llu n=%zu size=%zu\n", ci, (int)cl.op, cl.k, cl.v,
-               cl.al, cl.pk, cl.ttl, cl.now, (int)r.ok, (unsigned long long)r.val, (unsigned long long)r.cnt, r.n, r.size);
-        if (ci == ncalls - 1) // the clauses are those of the last call (earlier calls only set the stage)
-            check_clauses(pre, post, ev, r);
-        pre = post;
+        int r = state_attempt(t, last_now_, ttl_, tick_, calls, ncalls, kind, rmethod, rn);
+        if (r < 0) continue;
+        reached = true;
+        if (r > worst) worst = r;
+        if (r > 0) break; // reproduced with this slot arrangement
     }
-    printf("REPLAY-DONE steps=1 clause_failures=%d\n", g_fail);
-    return g_fail ? 1 : 0;
+    if (!reached) { printf("BUILD-MISMATCH: the abstract pre-state was not reached by the state builder\n"); return 3; }
+    printf("REPLAY-DONE steps=%d clause_failures=%d\n", ncalls, worst);
+    return worst ? 1 : 0;
 }
 
 int main(int argc, char** argv)
@@ -187,10 +309,10 @@ int main(int argc, char** argv)
             Res r;
             exec_call(c, ev, r);
             last_now = ev.now;
-            alpha_real(c, post);
+            if (g_prop != 8) alpha_real(c, post);
             printf("step %d op=%d k=%llu v=%llu a=%llu pk=%llu ttl=%lld now=%lld -> ok=%d val=%llu cnt=%llu n=%zu size=%zu\n", g_step,
                    (int)op, k, v, al, pk, ttl, now, (int)r.ok, (unsigned long long)r.val, (unsigned long long)r.cnt, r.n, r.size);
-            check_clauses(pre, post, ev, r);
+            if (g_prop != 8) check_clauses(pre, post, ev, r);
             pre = post;
             ++g_step;
         }
